@@ -22,6 +22,7 @@ package rapid
 //@ event InitExtensionsOK = ret rapid.doInitExtensions when r0 == nil
 //@ event ExtensionsEnabled = ret extensions.AreEnabled when r0
 //@ event ExtensionsDisabled = ret extensions.AreEnabled when !r0
+//@ event ExtensionsEnabledCheck = ret extensions.AreEnabled
 //@ event AwaitRestoreReady = call core.(InitFlowSynchronization).AwaitRuntimeRestoreReady
 //@ event AwaitRestoreReadyOK = ret core.(InitFlowSynchronization).AwaitRuntimeRestoreReady when r0 == nil
 //@ event RegistrationTurnOff = call core.(RegistrationService).TurnOff
@@ -102,6 +103,7 @@ package rapid
 //@ func doRuntimeDomainInit$1
 //@   requires execCtx != nil
 //@   ensures [status-lines-only] delta(EvInitStart) == 0 && delta(EvInitReport) == 0 && delta(EvInitRuntimeDone) == 0
+//@   ensures [one-line-per-known-extension-when-enabled] delta(ExtensionsEnabledCheck) == 1 && (lastret(ExtensionsEnabledCheck) ==> delta(AgentsInfoRead) == 1 && delta(EvExtensionInit) == len(lastret(AgentsInfoRead))) && (!lastret(ExtensionsEnabledCheck) ==> delta(EvExtensionInit) == 0)
 //@ func doRuntimeDomainInit$2
 //@   requires execCtx != nil && validPhase(phase)
 //@   ensures [tagged-with-phase] delta(EvInitRuntimeDoneTaggedInit) == isInit(phase) && delta(EvInitRuntimeDoneTaggedInvoke) == isInvoke(phase)
@@ -130,5 +132,6 @@ package rapid
 //@   ensures [ready-count-is-registered-count] r0 == nil && delta(SetInitAgentsCount) >= 1 ==> delta(SetInitAgentsCount) == 1 && delta(RegisteredSize) == 1 && lastarg(SetInitAgentsCount, 1) == lastret(RegisteredSize) && first(RegistrationTurnOff) < first(SetInitAgentsCount) && delta(AwaitInitAgentsReadyOK) == 1 && first(SetInitAgentsCount) < first(AwaitInitAgentsReady)
 //@   ensures [tagged-with-phase] delta(EvInitStartTaggedInit) == isInit(phase) && delta(EvInitStartTaggedInvoke) == isInvoke(phase) && delta(EvInitReportTaggedInit) == isInit(phase) && delta(EvInitReportTaggedInvoke) == isInvoke(phase) && delta(EvInitRuntimeDoneTaggedInit) == isInit(phase) * delta(EvInitRuntimeDone) && delta(EvInitRuntimeDoneTaggedInvoke) == isInvoke(phase) * delta(EvInitRuntimeDone)
 //@   ensures [error-status-has-a-type] delta(EvInitRuntimeDone) == 1 ==> (lastarg(EvInitRuntimeDone, 1).ErrorType == nil <==> delta(EvInitRuntimeDoneSuccess) == 1)
+//@   ensures [extension-lines-on-every-path] (lastret(ExtensionsEnabledCheck) ==> delta(AgentsInfoRead) == 1 && delta(EvExtensionInit) == len(lastret(AgentsInfoRead))) && (!lastret(ExtensionsEnabledCheck) ==> delta(EvExtensionInit) == 0)
 //@   ensures [not-done-on-failure] r0 != nil ==> execCtx.initDone == old(execCtx.initDone)
 //@   ensures [generation-bumped] execCtx.runtimeDomainGeneration == (old(execCtx.runtimeDomainGeneration) + 1) % 4294967296
